@@ -1754,9 +1754,25 @@ impl Transaction {
                 if next_row_id.is_some() {
                     let new_version = current_manifest.map(|m| m.version + 1).unwrap_or(1);
 
-                    // Build a map of original fragment ID -> original fragment for lookup
-                    let original_frags_map: std::collections::HashMap<u64, &Fragment> =
-                        existing_fragments.iter().map(|f| (f.id, f)).collect();
+                    // Map every stable row id of the original fragments to the version in which it
+                    // was created. (A stable row id is NOT a row address: it cannot be decoded
+                    // into fragment id and offset.)
+                    let mut created_by_row_id: std::collections::HashMap<u64, u64> =
+                        std::collections::HashMap::new();
+                    for orig_frag in existing_fragments.iter() {
+                        if let (
+                            Some(lance_table::format::RowIdMeta::Inline(data)),
+                            Some(created_meta),
+                        ) = (&orig_frag.row_id_meta, &orig_frag.created_at_version_meta)
+                        {
+                            if let (Ok(ids), Ok(seq)) = (
+                                lance_table::rowids::read_row_ids(data),
+                                created_meta.load_sequence(),
+                            ) {
+                                created_by_row_id.extend(ids.iter().zip(seq.versions()));
+                            }
+                        }
+                    }
 
                     for fragment in new_fragments.iter_mut() {
                         // For update operations with RewriteRows mode:
@@ -1782,35 +1798,14 @@ impl Transaction {
                             let mut created_at_versions = Vec::with_capacity(physical_rows);
 
                             for row_id in row_ids.iter() {
-                                // Row ID format: upper 32 bits = fragment ID, lower 32 bits = row offset
-                                let orig_frag_id = row_id >> 32;
-                                let row_offset = (row_id & 0xFFFFFFFF) as usize;
-
-                                // Look up the original fragment
-                                if let Some(orig_frag) = original_frags_map.get(&orig_frag_id) {
-                                    // Get created_at version from original fragment's metadata
-                                    let created_version = if let Some(created_meta) =
-                                        &orig_frag.created_at_version_meta
-                                    {
-                                        // Load and index into the version sequence
-                                        match created_meta.load_sequence() {
-                                            Ok(seq) => {
-                                                let versions: Vec<u64> = seq.versions().collect();
-                                                versions.get(row_offset).copied().unwrap_or(1)
-                                            }
-                                            Err(_e) => {
-                                                1 // Default to version 1 on error
-                                            }
-                                        }
-                                    } else {
-                                        // No metadata on original fragment, default to version 1
-                                        1
-                                    };
-                                    created_at_versions.push(created_version);
-                                } else {
-                                    // Original fragment not found, default to version 1
-                                    created_at_versions.push(1);
-                                }
+                                // Rows that keep their id keep their creation version; rows whose
+                                // id is new (inserted by a merge_insert) are created now.
+                                created_at_versions.push(
+                                    created_by_row_id
+                                        .get(&row_id)
+                                        .copied()
+                                        .unwrap_or(new_version),
+                                );
                             }
 
                             // Build version metadata from the collected versions
